@@ -173,13 +173,15 @@ CLAIMS = {
         note=COMMON_NOTE + "Month lags are floats in the code and exact rationals in the model: lag bounds are the "
              "triangle's own lags (bit-identical) and lags +-1, kept where float and exact comparison agree.",
         tech="Lean 4 proof (filter/sublist/partition algebra on sorted lists) + differential correspondence"),
-    "C12": dict(level=TV, ref="§7 C12",
-        text="32 kernel-checked theorems about the exact model of date_utils: addMonths_devLag_iff (the inverse law "
+    "C12": dict(level=PV, ref="§7 C12",
+        text="44 kernel-checked theorems, none open, about the exact model of date_utils: addMonths_devLag_iff (the inverse law "
              "holds in the model iff the target is >= 1970 or a month end - the exact extent of known finding D8), "
              "addMonths_devLag_partial, the pre-1970 counterexample, addMonths_int_monthId, addMonths_monthEnd, "
              "addMonths_add, addMonths_neg, devLag_monthEnds_int, devLag_days_eq_ordinal_diff, ordinal/ofOrdinal "
-             "inverse on the whole date range, idToMonth/monthToId inverses, resolutionDelta laws. The all-dates "
-             "inverse law is kept OPEN (it is false: D8) as is the kernel-unevaluable unit-spelling table. The code is "
+             "inverse on the whole date range, idToMonth/monthToId inverses, resolutionDelta laws, and the unit-spelling "
+             "dispatch of standardize_resolution / calculate_dev_lag (general if-chain statements plus the table of "
+             "spellings). The all-dates inverse law is kept visible as REFUTED (false because of D8, with the "
+             "counterexample and the exact iff). The code is "
              "IEEE floating point, the model exact: the tie is exhaustive on the property's finite domain - thorough "
              "enumerates every date 1970-2100 x every k in [-600,600] (per-start-date digests from the compiled driver "
              "vs bermuda.add_months), all pairs in sliding windows, 1900-1969; quick: all month ends x all k, random "
